@@ -142,6 +142,10 @@ class Enc:
         self.encoded = False
         self.order = []         # ('mod', r, terms, const) | ('mul', t, a, b) in creation order
         self.linrows = []       # purely linear gate rows: (const, {atom: symmetric coef})
+        self.skip_gate = None   # predicate(gate dict) -> True: leave this gate row to a specialised engine
+        self.skipped = []
+        self.opaque_products = False   # exact-small products: state only their range (monomial mode for
+                                       # limb arithmetic; the defining equation is re-checked exactly on models)
         self.side = []          # closed formulas (own declarations, body) that must be VALID: lemmas the
                                 # spec hands to the main query; each is discharged by the solver first
 
@@ -176,6 +180,87 @@ class Enc:
             return
         if B < self.ub.get(a, self.P):
             self.ub[a] = B
+
+    def signed(self, a):
+        """SMT term for the centred representative of a cell value: v if v < p/2 else v - p (a total,
+        definitional function of v; limbs of un-normalised emulated elements are small negative numbers
+        stored mod p)."""
+        if isinstance(a, int):
+            return I(sym(a, self.P))
+        if self.ub.get(a, self.P) < self.P // 2:
+            return a
+        return f"(ite (< {a} {self.P // 2 + 1}) {a} (- {a} {self.P}))"
+
+    # ---- emulated-field residues (foreign-field arithmetic) ---------------------------------------
+    def residue(self, terms, const, m):
+        """definitional r in [0,m) with r == const + sum c_i * signed(atom_i) (mod m). Cached on the
+        (terms, const) key so that gates and specification share the same residue atom."""
+        if not hasattr(self, "_res"):
+            self._res = {}
+        key = (tuple(sorted((a, c) for c, a in terms if c)), const % m if not terms else const, m)
+        if key in self._res:
+            return self._res[key]
+        if not terms:
+            self._res[key] = const % m
+            return const % m
+        r = self.fresh("res", 0, m - 1)
+        q = self.fresh("rq")
+        body = "(+ " + I(const) + " " + " ".join(f"(* {I(c)} {self.signed(a)})" for c, a in terms if c) + ")"
+        self.lines.append(f"(assert (= {body} (+ {r} (* {m} {q}))))")
+        self._res[key] = r
+        self.order.append(("res", r, [(c, a) for c, a in terms if c], const, m))
+        return r
+
+    def addmod(self, a, b, m, sign=1):
+        """definitional (a + sign*b) mod m for residues a, b in [0, m)"""
+        if isinstance(a, int) and isinstance(b, int):
+            return (a + sign * b) % m
+        r = self.fresh("am", 0, m - 1)
+        q = self.fresh("aq", -1, 1)
+        A_ = lambda x: I(x) if isinstance(x, int) else x
+        self.lines.append(f"(assert (= (+ {A_(a)} (* {I(sign)} {A_(b)})) (+ {r} (* {m} {q}))))")
+        self.order.append(("addm", r, a, b, sign, m))
+        return r
+
+    def MM(self, a, b, m):
+        """product of two residues mod m as an uninterpreted function (sound abstraction of a*b mod m)
+        with the lemmas valid in Z_m for prime m: range, zero-product, units, constants."""
+        if not hasattr(self, "_mm"):
+            self._mm = {}
+            self.lines.append("(declare-fun MMf (Int Int) Int)")
+        if isinstance(a, int) and isinstance(b, int):
+            return a * b % m
+        if isinstance(a, int):
+            a, b = b, a
+        key = (a, b) if isinstance(b, int) else tuple(sorted([a, b]))
+        if key in self._mm:
+            return self._mm[key]
+        L = self.lines
+        if isinstance(b, int):
+            # multiplication by a constant is linear: exact
+            t = self.fresh("mm", 0, m - 1)
+            q = self.fresh("mq")
+            L.append(f"(assert (= (* {I(b % m)} {a}) (+ {t} (* {m} {q}))))")
+            self._mm[key] = t
+            self.order.append(("mm", t, a, b % m, m))
+            return t
+        x, y = key
+        t = self.fresh("mmu", 0, m - 1)
+        L.append(f"(assert (= {t} (MMf {x} {y})))")
+        L.append(f"(assert (= (= {t} 0) (or (= {x} 0) (= {y} 0))))")
+        L.append(f"(assert (=> (= {x} 1) (= {t} {y})))")
+        L.append(f"(assert (=> (= {y} 1) (= {t} {x})))")
+        for (k1, k2), t2 in list(self._mm.items()):
+            if isinstance(k2, int):
+                continue
+            for (p_, q_), (p2, q2) in (((x, y), (k1, k2)), ((x, y), (k2, k1)), ((y, x), (k1, k2)), ((y, x), (k2, k1))):
+                if p_ == p2:
+                    L.append(f"(assert (=> (and (not (= {p_} 0)) (= {t} {t2})) (= {q_} {q2})))")
+                    break
+            L.append(f"(assert (=> (or (and (= {x} {k1}) (= {y} {k2})) (and (= {x} {k2}) (= {y} {k1}))) (= {t} {t2})))")
+        self._mm[key] = t
+        self.order.append(("mm", t, x, y, m))
+        return t
 
     # ---- linear forms -------------------------------------------------------------------------
     def lin_smt(self, terms, const):
@@ -250,6 +335,8 @@ class Enc:
                 L.append(f"(assert (= {t} (ite (= {a} 0) 0 {b})))")
             elif Bb <= 2:
                 L.append(f"(assert (= {t} (ite (= {b} 0) 0 {a})))")
+            elif self.opaque_products:
+                L.append(f"(assert (=> (or (= {a} 0) (= {b} 0)) (= {t} 0)))")
             else:
                 L.append(f"(assert (= {t} (* {a} {b})))")
         else:
@@ -502,6 +589,9 @@ class Enc:
         for g in d["gates"]:
             if ("gate", g["gate"], g["row"]) in self.drop:
                 continue
+            if self.skip_gate is not None and self.skip_gate(g):
+                self.skipped.append(g)
+                continue
             const, lin, quad, high = self.split_poly(g["poly"])
             if not high and len(quad) == 1 and quad[0][1] == quad[0][2] and len(lin) == 1 and const == 0 \
                     and list(lin)[0] == quad[0][1] and (quad[0][0] + lin[quad[0][1]]) % self.P == 0:
@@ -741,6 +831,16 @@ class Enc:
             if item[0] == "mod":
                 _, r, terms, const = item
                 val[r] = (sum(c * g(n) for c, n in terms) + const) % P
+            elif item[0] == "res":
+                _, r, terms, const, m = item
+                sg = lambda a: (g(a) if g(a) <= P // 2 else g(a) - P)
+                val[r] = (sum(c * sg(n) for c, n in terms) + const) % m
+            elif item[0] == "addm":
+                _, r, a, b, sign, m = item
+                val[r] = (g(a) + sign * g(b)) % m
+            elif item[0] == "mm":
+                _, t, a, b, m = item
+                val[t] = g(a) * g(b) % m
             else:
                 _, t, a, b = item
                 val[t] = g(a) * g(b) % P
